@@ -9,6 +9,7 @@
 #include "iora/core/logger.hpp"
 #include "iora/parsers/json.hpp"
 #include <condition_variable>
+#include <filesystem>
 #include <fstream>
 #include <mutex>
 #include <set>
@@ -227,17 +228,37 @@ private:
   {
     try
     {
-      std::ofstream file(_filename);
+      // Write the new contents next to the file and rename over it: opening the
+      // store file itself truncates it first, and a crash before the data is written
+      // would leave an empty (unparsable) store behind.
+      const std::string tmpName = _filename + ".tmp";
+      std::ofstream file(tmpName, std::ios::trunc);
       if (file)
       {
         std::string jsonData = _store.dump(2);
         file << jsonData;
-        iora::core::Logger::debug("JsonFileStore: Wrote " + std::to_string(jsonData.length()) +
-                                  " bytes to " + _filename);
+        file.flush();
+        const bool ok = file.good();
+        file.close();
+        std::error_code ec;
+        if (ok)
+        {
+          std::filesystem::rename(tmpName, _filename, ec);
+        }
+        if (!ok || ec)
+        {
+          std::filesystem::remove(tmpName, ec);
+          iora::core::Logger::error("JsonFileStore: Failed to write " + _filename);
+        }
+        else
+        {
+          iora::core::Logger::debug("JsonFileStore: Wrote " + std::to_string(jsonData.length()) +
+                                    " bytes to " + _filename);
+        }
       }
       else
       {
-        iora::core::Logger::error("JsonFileStore: Failed to open " + _filename + " for writing");
+        iora::core::Logger::error("JsonFileStore: Failed to open " + tmpName + " for writing");
       }
     }
     catch (const std::exception &e)
